@@ -583,6 +583,13 @@ class Program(object):
       if d is not None:
         # typed attribute receiver: self._ema.Update, GLOBAL_TIMER_QUEUE.Schedule
         types = set()
+        if isinstance(recv, ast.Name):
+          # local variable bound to a constructor call in this function
+          for st in ast.walk(f.node):
+            if isinstance(st, ast.Assign) and len(st.targets) == 1 and isinstance(st.targets[0], ast.Name) and st.targets[0].id == recv.id:
+              k = self._ctor_class(st.value, m, cls)
+              if k is not None:
+                types.add(k)
         if d.startswith('self.') and d.count('.') == 1 and cls is not None:
           types = self.attr_type(cls, d[5:])
         elif '.' not in d and (m.name, d) in self.global_types:
